@@ -43,11 +43,13 @@ Proof.
     apply negb_true_iff in Hargs. rewrite (existsb_true_in _ _ Hg) in Hargs. discriminate.
 Qed.
 
-Definition has_while (l : list stmt) : bool := existsb (fun s => match s with SWhile _ _ => true | _ => false end) l.
+Definition has_while (l : list stmt) : bool := existsb (fun s => match s with SWhile _ _ | SDo _ _ => true | _ => false end) l.
+Definition has_do (l : list stmt) : bool := existsb (fun s => match s with SDo _ _ => true | _ => false end) l.
 
-(** 10000 * functions + 100 * inside the end-to-end fragment with exact literals + those among them with a loop *)
+(** 1000000 * functions + 10000 * inside the end-to-end fragment with exact literals + 100 * those among them with a loop + those with a do loop *)
 Definition loop_case (M : module) : Z :=
   let e2e := filter (fun fn => loopsrc_in_fragment M fn &&
                        match straight_static M fn with Some (_, _, _, _, tl, te) => lits_exact_b (flat_map tflits (flat_map (wtopexprs flow_depth) tl ++ [te])) | None => false end) (m_funcs M) in
   let withloop := filter (fun fn => match straight_static M fn with Some (l, _, _, _, _, _) => has_while l | None => false end) e2e in
-  (Z.of_nat (length (m_funcs M)) * 10000 + Z.of_nat (length e2e) * 100 + Z.of_nat (length withloop))%Z.
+  let withdo := filter (fun fn => match straight_static M fn with Some (l, _, _, _, _, _) => has_do l | None => false end) e2e in
+  (Z.of_nat (length (m_funcs M)) * 1000000 + Z.of_nat (length e2e) * 10000 + Z.of_nat (length withloop) * 100 + Z.of_nat (length withdo))%Z.
